@@ -102,7 +102,7 @@ FLAVOURS = {
     # sanitizer build used for correspondence
     "asan": ["clang-14", "-std=gnu99", "-O1", "-g", "-fsanitize=address,undefined",
              "-fno-sanitize-recover=all", "-fno-omit-frame-pointer",
-             "-DSYSTEM_ENDIANNESS_LITTLE", "-D_DEFAULT_SOURCE"],
+             "-DSYSTEM_ENDIANNESS_LITTLE", "-D_DEFAULT_SOURCE", "-DNDEBUG"],
     # flags of the shipped library
     "ship": ["gcc", "-std=gnu99", "-O2", "-g", "-DNDEBUG", "-DSYSTEM_ENDIANNESS_LITTLE",
              "-DUFW_USE_BUILTIN_SWAP", "-D_DEFAULT_SOURCE"],
@@ -119,6 +119,7 @@ HARNESS_SRCS = {
                   "src/rfc1055.c", "src/variable-length-integer.c", "src/length-prefix.c"],
     "h_persist": ["src/persistent-storage.c", "src/crc-16-arc.c"],
     "h_sx": ["src/sx.c", "src/compat/strlcpy.c"],
+    "h_regtable": ["src/registers/core.c"],
     "h_codec": ["src/byte-buffer.c", "src/variable-length-integer.c", "src/endpoints/core.c", "src/crc-16-arc.c"],
 }
 
